@@ -129,7 +129,7 @@ def replay(pid, path):
         from ..props import misc_probe
 
         enga.init()
-        bad = [r for r in misc_probe.run() + misc_probe.run_nested() if r["key"] == cex.get("key") and r["status"] == "violation"]
+        bad = [r for r in misc_probe.run() + misc_probe.run_nested() + misc_probe.run_out_buffers() if r["key"] == cex.get("key") and r["status"] == "violation"]
         for r in bad:
             print("replay %s: %s" % (r["key"], r["detail"]))
         if bad:
